@@ -403,8 +403,12 @@ def run(report):
         if not dbad:
             pub_groups = sorted({g for x in root["recipes"] if x["enabled"] and not x["private"] for g in x["groups"]})
             all_groups = {g for x in root["recipes"] for g in x["groups"]}
-            if not (set(pub_groups) <= set(r["groups"]) <= all_groups):
+            if not (set(pub_groups) <= set(r["groups"]) <= all_groups) or len(set(r["groups"])) != len(r["groups"]):
                 dbad = ("groups", "--groups", r["groups"], pub_groups)
+            elif r["groups"] != em["groups"]:
+                report.failure("c17-model-groups", "--groups prints %r, Just.Listing.publicGroups gives %r" % (r["groups"], em["groups"]),
+                               dict(replay, correspondence="C17 --groups vs Just.Listing.publicGroups", model=em["groups"], impl=r["groups"]), no_input=True)
+                continue
         if dbad:
             report.failure("c17-declared:%s" % dbad[0], "%s of `%s`: displayed %r, declared %r" % dbad, dict(replay, name=dbad[1]))
             continue
